@@ -1,3 +1,35 @@
-From DSG Require Import Base Dsg Sel SelP Problem.
-Theorem C04_placeholder : True. Proof. exact I. Qed.
-Print Assumptions C04_placeholder.
+(* C04 — the enumerated valid design vectors are exactly the architectures. *)
+From DSG Require Import Base Dsg Sel SelP DesVar Problem ProblemP.
+
+(* a vector is listed iff it is the vector of an admissible assignment with in-domain design-variable values *)
+Theorem C04_rows_exact : forall g E rows, rows_of g E = Some rows ->
+  forall r, In r rows <->
+    exists s J, Adm g s /\ inst_nodes g s = Some J /\ (exists l, enum_adm g = Some l /\ In s l) /\
+                Forall2 (fun e v => In e (var_entries s J v)) r E.
+Proof. exact rows_of_spec. Qed.
+Print Assumptions C04_rows_exact.
+
+(* every admissible architecture is listed *)
+Theorem C04_rows_complete : forall g E rows s, rows_of g E = Some rows -> Adm g s ->
+  exists s' J', same s' s /\ inst_nodes g s' = Some J' /\
+                forall r, Forall2 (fun e v => In e (var_entries s' J' v)) r E -> In r rows.
+Proof. exact rows_of_complete. Qed.
+Print Assumptions C04_rows_complete.
+
+(* admissible assignments are enumerated once each *)
+Theorem C04_assignments_once : forall g l, opts_nodup g -> enum_adm g = Some l -> ForallOrdPairs (fun a b => ~ same a b) l.
+Proof. exact enum_adm_distinct. Qed.
+Print Assumptions C04_assignments_once.
+
+Theorem C04_n_valid : forall g E rows, rows_of g E = Some rows -> n_valid g E = Some (N.of_nat (length rows)).
+Proof. exact n_valid_is_length. Qed.
+Print Assumptions C04_n_valid.
+
+Definition ex_g : dsg := {|
+  nodes := [(0,Generic);(1,Generic);(2,Generic);(3,DesVarK);(10,SelChoice)]%N;
+  edges := [((0,10),Derives);((10,1),Derives);((10,2),Derives);((2,3),Derives)]%N;
+  start := [0%N]; cons := [] |}.
+Example C04_ex : rows_of ex_g [VSel 10 [1;2]; VDv 3 (Disc 2)]%N = Some [[0;-1];[1;0];[1;1]]%Z
+  /\ n_declared [VSel 10 [1;2]; VDv 3 (Disc 2)]%N = 4%N
+  /\ enc_ok ex_g [VSel 10 [1;2]; VDv 3 (Disc 2)]%N = Some true.
+Proof. vm_compute. repeat split. Qed.
